@@ -150,7 +150,7 @@ Section Run.
   (* the end call of a finished transaction that began *)
   Lemma finished_l : forall r, tst th = TDone r -> rruns r = 1 ->
     exists b S e o, tr = b :: S ++ [e] /\ ent_end e = true /\ rbody r = Some o /\
-      ((rself r = false /\ ecall e = end_call_of g o /\ rret r = ret_of o (xres (ecall e) (eout e))) \/
+      ((rself r = false /\ ecall e = end_call_of g o /\ rret r = ret_of o (xres (ecall e) (eout e) (eval e))) \/
        (rself r = true /\ self_free sc = false /\ rret r = ret_of o (XErr TxDone))).
   Proof.
     intros r Hst Hr. pose proof th_inv as H. fold sc in H. rewrite Hst in H. cbn in H.
@@ -181,7 +181,7 @@ Section Run.
   (* the unique end call of a finished transaction whose body did not end it itself *)
   Lemma deferred_end_l : forall r, tst th = TDone r -> rruns r = 1 -> rself r = false ->
     exists o e, rbody r = Some o /\ In e tr /\ ecall e = end_call_of g o /\
-      rret r = ret_of o (xres (ecall e) (eout e)) /\
+      rret r = ret_of o (xres (ecall e) (eout e) (eval e)) /\
       (forall x, In x tr -> ent_end x = true -> x = e).
   Proof.
     intros r Hst Hr Hself. pose proof th_inv as H. fold sc in H. rewrite Hst in H. cbn in H.
@@ -251,7 +251,7 @@ Section Run.
     In e tr -> ent_end e = true ->
     (eout e = OPanic -> rret r = RetPanic) /\
     (eout e = OFail -> rbody r <> Some BGoexit ->
-       (ecall e = CCommit -> rret r = RetErr (ECommit DrvCommit)) /\
+       (ecall e = CCommit -> rret r = RetErr (ECommit (DrvCommit (eval e)))) /\
        (ecall e = CRollback -> reports_rollback_failure (rret r) = true)) /\
     (eout e = OFail -> rbody r = Some BGoexit -> rret r = RetNever).
   Proof.
@@ -278,7 +278,7 @@ Section Run.
     (rself r = false -> exists pre e, tr = pre ++ [e] /\ ecall e = CRollback /\
        rret r = match eout e with
                 | OOk => RetErr (ERecover None)
-                | OFail => RetErr (ERecover (Some DrvRollback))
+                | OFail => RetErr (ERecover (Some (DrvRollback (eval e))))
                 | OPanic => RetPanic
                 end).
   Proof.
@@ -297,7 +297,7 @@ Section Run.
     exists pre e, tr = pre ++ [e] /\ ecall e = CRollback /\
       rret r = match eout e with
                | OOk => RetErr (EBody b)
-               | OFail => RetErr (ETxFailed b DrvRollback)
+               | OFail => RetErr (ETxFailed b (DrvRollback (eval e)))
                | OPanic => RetPanic
                end.
   Proof.
@@ -328,7 +328,9 @@ End Run.
 Lemma script_followed_l : forall g scs sched orc,
   let W := exec g scs sched orc in
   worc W = skipn (length (wlog W)) orc /\
-  forall i e, nth_error (wlog W) i = Some e -> eout e = honoured (ecall e) (rout (nth i orc dflt)).
+  forall i e, nth_error (wlog W) i = Some e ->
+    eout e = honoured (ecall e) (rout (nth i orc dflt)) /\
+    eval e = val_of (ecall e) (eout e) (rval (nth i orc dflt)).
 Proof. intros g scs sched orc W. apply follows_nth. exact (g_follows _ _ _ _ _ (W_ginv g scs sched orc)). Qed.
 
 Lemma balanced_l : forall g scs sched orc c,
@@ -343,13 +345,13 @@ Proof. intros g scs sched orc W. exact (g_leaks _ _ _ _ _ (W_ginv g scs sched or
 
 Lemma every_call_is_somebodys_l : forall g scs sched orc e,
   let W := exec g scs sched orc in
-  In e (wlog W) -> exists th, nth_error (wthreads W) (etid e) = Some th /\ In e (proj (etid e) (wlog W)).
+  In e (wlog W) -> exists th, nth_error (wthreads W) (etid e) = Some th /\ In e (calls_of (etid e) (wlog W)).
 Proof.
   intros g scs sched orc e W Hin.
   pose proof (g_tids _ _ _ _ _ (W_ginv g scs sched orc)) as Ht. rewrite Forall_forall in Ht.
   specialize (Ht _ Hin). rewrite <- (g_scripts _ _ _ _ _ (W_ginv g scs sched orc)), map_length in Ht.
   destruct (nth_error (wthreads W) (etid e)) as [th|] eqn:E.
-  - exists th. split; [reflexivity|]. unfold proj. apply filter_In. split; [exact Hin | apply Nat.eqb_refl].
+  - exists th. split; [reflexivity|]. unfold calls_of. apply filter_In. split; [exact Hin | apply Nat.eqb_refl].
   - apply nth_error_None in E. fold W in Ht. lia.
 Qed.
 
